@@ -21,6 +21,12 @@ def explicit(tier, seed):
     shapes.append(("seq-small", [{"k": "step", "val": 1}, {"k": "step", "val": 2, "sem": "most"}, {"k": "wait", "s": 1}, {"k": "cb"}, {"k": "step", "val": 3}]))
     shapes.append(("par-small", [{"k": "par", "branches": [{"body": [{"k": "step", "val": b}, {"k": "step", "val": b + 10}]} for b in range(3)]},
                                  {"k": "wfc", "init": 0, "decisions": [("cont", 1), ("stop",)]}]))
+    L = 256 * 1024
+    shapes.append(("child-summarised", [{"k": "child", "body": [{"k": "step", "val": 1}], "result": {"big": L + 900}}, {"k": "step", "val": "after"},
+                                        {"k": "par", "branches": [{"body": [{"k": "step", "val": 2}], "result": {"big": L + 50}}, {"body": [{"k": "step", "val": 3}]}],
+                                         "cfg": {"preset": "all_completed"}}, {"k": "step", "val": "end"}]))
+    shapes.append(("wfcb-and-map-summarised", [{"k": "map", "items": [0, 1], "body": [{"k": "step", "val": 1}], "result": {"big": L // 2 + 900}, "cfg": None},
+                                               {"k": "try", "body": {"k": "wfcb"}, "catch": "*"}, {"k": "step", "val": "end"}]))
     reps = 2 if tier == "quick" else 12
     for name, body in shapes:
         for r in range(reps):
@@ -75,7 +81,7 @@ SPEC = Spec(
     rule="random programs (all nine operation kinds, nesting<=3) x {uninterrupted with random pagination/latency, every single "
     "crash point of a small-program corpus, random multi-crash, asynchronous SIGKILL, yield injection}; every ret/exc delivered to user code and every PENDING outcome is checked, at the instant the single-threaded parent receives it, against the backend table (terminal record / armed wake source / EXECUTION record). Non-trivial = at least one delivery was checked. "
     "Additional hand-written shapes: parallel steps whose 260-450 KB results cannot share a 750 KB batch (overflow queue) under 0-40 ms "
-    "backend latency, 800 KB sequential steps, and a failing checkpoint request (answered at once or left in flight 25 ms while "
+    "backend latency, 800 KB sequential steps, child contexts / map / parallel whose result is recorded as a summary, and a failing checkpoint request (answered at once or left in flight 25 ms while "
     "further blocking records queue up) at every call position, also under after-sync perturbation (the signalling thread is descheduled right after Event.set / Queue.put / lock release). A branch abandoned by an early-completing map/parallel, held inside its step function until the handler has returned and then released in the lingering process (warm sandbox), followed by each kind of next operation. A class = (program shape hash, interruption pattern, event kind at "
     "which the crash landed).",
     deciding=lambda r: True,
